@@ -394,3 +394,35 @@ for h, kind, rel in (('v_isr', 'V_ISR', 809), ('v_irf', 'V_IRF', 808)):
 value('accept_SelfAccessNode', None, {'self-resolved-and-typed': 'typed_variable(lookup(self.symtab, self.symtab.version, "self"))'},
       extra_ens={'typed-as-the-variable': 'result.typ is old(lookup(self.symtab, self.symtab.version, "self").nav_S_DT_R848)'})
 statement('accept_SelectFromWhereNode', {'children': 'node.where_clause is not None and is_value(node.where_clause)'}, nested=True)
+
+# ---- invocation parameters: R816 chain over the parameter list (built back to front), every parameter a fresh V_PAR with its value
+M.uninterpreted('is_param', [NODE], BOOL)
+_acc = M.contracts['bridgepoint.prebuild.ActionPrebuilder.accept']
+_acc.ensures['parameter'] = ('implies(node is not None and is_param(node), is_ref(result) and fresh(as_ref(result)) and kind_of(as_ref(result)) == "V_PAR" '
+                             'and as_ref(result).nprev == 0 and as_ref(result).nnext == 0)')
+M.fields({'Node.name': VAL})
+for h in ('accept_ParameterNode', 'accept_EventDataItemNode'):
+    M.contract('bridgepoint.prebuild.ActionPrebuilder.' + h, [('self', PB), ('node', NODE)], returns=INST,
+               requires=dict(REQ, **{'children': 'node.expression is not None and is_value(node.expression)'}),
+               ensures={'an-unchained-parameter-carrying-its-value': 'fresh(result) and kind_of(result) == "V_PAR" and result.nprev == 0 and result.nnext == 0',
+                        'scopes-restored': 'self.symtab.scopes == old(self.symtab.scopes)'},
+               modifies=MOD + ['self.symtab.version', 'Node.built'])
+M.spec('''
+def pchain_so_far(kids, k):
+    n = len(kids)
+    return (all(is_ref(kids[j].built) and allocated(b(kids[j])) and kind_of(b(kids[j])) == 'V_PAR' for j in range(n - k, n))
+            and all(all(b(kids[j]) is not b(kids[m]) for m in range(j + 1, n)) for j in range(n - k, n))
+            and all(b(kids[j]).prev is b(kids[j + 1]) and b(kids[j]).nprev == 1 for j in range(n - k, n - 1))
+            and all(b(kids[j]).nnext == 1 and b(kids[j]).next is b(kids[j - 1]) for j in range(n - k + 1, n))
+            and implies(k > 0, b(kids[n - 1]).nprev == 0 and b(kids[n - k]).nnext == 0))
+''')
+M.contract('bridgepoint.prebuild.ActionPrebuilder.accept_ParameterListNode', [('self', PB), ('node', NODE), ('act_smt', INST), ('v_val', INST)], returns=NONE,
+           requires={'walker': 'self.symtab is not None and node is not None', 'children-are-parameters': 'tree(node.children) and all(is_param(c) for c in node.children)',
+                     'invocation': '(act_smt is None or (allocated(act_smt) and kind_of(act_smt) == "ACT_SMT")) and (v_val is None or (allocated(v_val) and kind_of(v_val) == "V_VAL"))'},
+           ensures={'each-parameter-chained-to-its-neighbour-in-source-order-none-at-the-ends': 'pchain_so_far(node.children, len(node.children))',
+                    'scopes-restored': 'self.symtab.scopes == old(self.symtab.scopes)'},
+           modifies=MOD + ['self.symtab.version', 'Node.built'],
+           loops={0: Loop(inv={'walks-the-children-backwards': 'len(_seq) == len(node.children) and all(_seq[j] is node.children[len(node.children) - 1 - j] for j in range(0, len(_seq)))',
+                               'chained-so-far': 'pchain_so_far(node.children, _i)',
+                               'previous': 'same(prev_v_par, None if _i == 0 else node.children[len(node.children) - _i].built)',
+                               'scopes': 'self.symtab.scopes == old(self.symtab.scopes)'})})
